@@ -51,6 +51,15 @@ def run(ctx):
             plain.append(run_.add(h, "mem", "all<=%d" % (3 if thorough else 2)))
         for h in kvlib.all_histories(noreload, 2):
             plain.append(run_.add(h, "p0", "all<=2"))
+        # hot index maintenance: ALL histories [set-up, warm-up that builds the expiration index, any expiry-changing
+        # request, every read path]: set / slide / clear through Set, increment metadata and patches on a built index
+        sets = [q for q in reqs if q["op"] == "Set"]
+        warm = [q for q in reqs if (q["op"] == "GetByIndex" and q["ord"] == "asc") or (q["op"] in ("PatchExpired", "ShiftExpired") and q["n"] == 1)]
+        for mode in ("mem", "p0"):
+            for a in sets:
+                for w in warm:
+                    for c in writes:
+                        plain.append(run_.add([a, w, c] + READS, mode, "hot-index"))
         # set / slide / clear, every read path, close + reload, every read path, claim, every read path
         n = 1500 if thorough else 150
         for mode in ("pi", "pj"):
